@@ -130,6 +130,9 @@ pub struct Rewriter<'a> {
     pub drop_takes: bool,
     pub drop_fn: String,
     pub user_call_ret: Option<String>,
+    pub user_call_try: bool,
+    /// receiver identifier -> (method -> new name): e.g. the result channel's `send`
+    pub rename_methods_on: HashMap<String, HashMap<String, String>>,
     /// crate-local async fns: `f(args).await` is the sequential call `f(args, Tracked(w))`
     pub async_fns: Vec<String>,
     /// R15: method name -> kinds ("poll" | "option") for successive occurrences (pre-order)
@@ -445,6 +448,15 @@ impl<'a> VisitMut for Rewriter<'a> {
         // method renames (R4) and effect threading (R6)
         if let Expr::MethodCall(m) = e {
             let name = m.method.to_string();
+            if let Expr::Path(p) = &*m.receiver {
+                if let Some(ri) = p.path.get_ident() {
+                    if let Some(n) = self.rename_methods_on.get(&ri.to_string()).and_then(|mm| mm.get(&name)) {
+                        m.method = id(n);
+                        self.fired.push(format!("R4-rename-{}-on-{}", name, ri));
+                    }
+                }
+            }
+            let name = m.method.to_string();
             if let Some(n) = self.rename_methods.get(&name) {
                 m.method = id(n);
                 self.fired.push(format!("R4-rename-{}", name));
@@ -466,8 +478,18 @@ impl<'a> VisitMut for Rewriter<'a> {
                         let f = &c.func;
                         let args = c.args.iter();
                         self.fired.push(format!("R6-user-call-{}", n));
-                        let nm = if c.args.len() == 1 { id("vx_user_call1") } else { id("vx_user_call") };
+                        let nm = match (c.args.len() == 1, self.user_call_try) {
+                            (true, false) => id("vx_user_call1"),
+                            (false, false) => id("vx_user_call"),
+                            (true, true) => id("vx_user_try_call1"),
+                            (false, true) => id("vx_user_try_call"),
+                        };
                         let tf: TokenStream = match (&self.user_call_ret, c.args.len()) {
+                            (Some(r), n) if self.user_call_try => {
+                                // "T, E"
+                                let tys: Vec<Type> = r.split(',').map(|x| syn::parse_str(x.trim()).unwrap()).collect();
+                                if n == 1 { quote! { ::<_, _, #(#tys),*> } } else { quote! { ::<_, _, _, #(#tys),*> } }
+                            }
                             (Some(r), 1) => { let t: Type = syn::parse_str(r).unwrap(); quote! { ::<_, _, #t> } }
                             (Some(r), _) => { let t: Type = syn::parse_str(r).unwrap(); quote! { ::<_, _, _, #t> } }
                             _ => quote! {},
@@ -561,6 +583,23 @@ pub fn apply_all(block: &mut Block, item: &Value, fired: &mut Vec<String>, name:
         drop_fn: item.get("drop_fn").and_then(|x| x.as_str()).unwrap_or("vx_drop_sender_opt").to_string(),
         async_fns: list("async_fns"),
         user_call_ret: item.get("user_call_ret").and_then(|x| x.as_str()).map(String::from),
+        user_call_try: item.get("user_call_try").and_then(|x| x.as_bool()).unwrap_or(false),
+        rename_methods_on: item
+            .get("rename_methods_on")
+            .and_then(|x| x.as_object())
+            .map(|o| {
+                o.iter()
+                    .map(|(k, v)| {
+                        (
+                            k.clone(),
+                            v.as_object()
+                                .map(|m| m.iter().filter_map(|(a, b)| b.as_str().map(|b| (a.clone(), b.to_string()))).collect())
+                                .unwrap_or_default(),
+                        )
+                    })
+                    .collect()
+            })
+            .unwrap_or_default(),
         desugar: item
             .get("desugar")
             .and_then(|x| x.as_object())
@@ -751,6 +790,18 @@ pub fn rename_raw_file(f: &mut File) {
 }
 
 pub fn mark(block: &mut Block, fn_name: &str) {
+    mark_ret(block, fn_name, false)
+}
+
+pub fn mark_ret(block: &mut Block, fn_name: &str, unit_ret: bool) {
+    if unit_ret {
+        // a unit function's block-like tail expression (`if .. {}`) becomes a statement so that the end marker is last
+        if let Some(Stmt::Expr(e, semi @ None)) = block.stmts.last_mut() {
+            if matches!(e, Expr::If(_) | Expr::Match(_) | Expr::Block(_) | Expr::While(_) | Expr::Loop(_) | Expr::ForLoop(_)) {
+                *semi = Some(Default::default());
+            }
+        }
+    }
     let mut m = Marker { f: fn_name.to_string(), k: 0, nk: 0, ck: 0, renames: HashMap::new() };
     m.visit_block_mut(block);
     Renamer(&m.renames).visit_block_mut(block);
@@ -895,7 +946,8 @@ pub fn hoist_closure(clo: ExprClosure, item: &Value, fired: &mut Vec<String>, na
         body.stmts.insert(i, st);
     }
     apply_all(&mut body, item, fired, name);
-    mark(&mut body, &as_fn);
+    let unit_ret = item.get("ret").and_then(|x| x.as_str()).map(|r| r.is_empty()).unwrap_or(true);
+    mark_ret(&mut body, &as_fn, unit_ret);
     fired.push("R5-hoist".into());
     let fn_ident = id(&as_fn);
     let gen: TokenStream = if generics.is_empty() { quote! {} } else { syn::parse_str(&generics).unwrap() };
